@@ -37,6 +37,12 @@ func c02Events() []*mocrelay.Event {
 		{{"e", X, "extra"}},
 		{{"t", X}},
 		{{"e", X}, {"e", X}},
+		// names that merely share a prefix, a case variant or nothing with a filter letter
+		{{"emoji", X}},
+		{{"ep", X}, {"pe", Y}},
+		{{"E", X}},
+		{{"", X}},
+		{{"proxy", Y}, {"e", X}},
 	}
 	var evs []*mocrelay.Event
 	for _, id := range []string{c02IDA, c02IDB} {
